@@ -36,7 +36,10 @@ CONSTANTS
     SampleMod, SampleRem,
     ListFirstWins, \* sensitivity: list options keep only the first value (WRONG)
     NegNoop,       \* sensitivity: '!' in Match is ignored (WRONG)
-    SpliceLeaks    \* sensitivity: Include does not restore the match state (WRONG)
+    SpliceLeaks,   \* sensitivity: Include does not restore the match state (WRONG)
+    NegSticky,     \* sensitivity: a '!' also negates the criteria after it (WRONG)
+    GenSel,        \* generated-line programs: which block of generated lines ({} = free programs)
+    PreSel         \* generated-line programs: directive put before the line (0 = none)
 
 -----------------------------------------------------------------------------
 Strs(A, lo, hi) == UNION {[1..n -> A] : n \in lo..hi}
@@ -92,7 +95,7 @@ Arg(c) == c \in {"host", "originalhost", "user", "localuser", "tagged", "address
 
 c2201 == <<"2", "2", "0", "1">>
 c2202 == <<"2", "2", "0", "2">>
-DirMenu == <<
+StaticMenu == <<
     HostD(<<P(FALSE, ha)>>),                                         \*  1 Host ha
     HostD(<<P(FALSE, hb)>>),                                         \*  2 Host hb
     HostD(<<P(FALSE, <<"*">>)>>),                                    \*  3 Host *
@@ -153,7 +156,59 @@ DirMenu == <<
     MatchD(<<Cr(TRUE, "host", <<P(FALSE, hb)>>)>>),                                       \* 52 Match !host hb
     MatchD(<<Cr(FALSE, "address", <<P(FALSE, <<"1", "0", ".", "*">>)>>)>>)                \* 53 Match address 10.*
 >>
+NStatic == Len(StaticMenu)
+
+(* Generated Host / Match lines: every pair of criteria (patterns) in every   *)
+(* negation placement, so that with the targets each criterion is true and    *)
+(* false on its own (pos-pos, neg-pos, pos-neg, neg-neg x TT, TF, FT, FF).     *)
+GenC == <<                                         \* client criteria
+    Cr(FALSE, "host", <<P(FALSE, ha)>>),
+    Cr(FALSE, "originalhost", <<P(FALSE, hb)>>),
+    Cr(FALSE, "user", <<P(FALSE, ua)>>),
+    Cr(FALSE, "user", <<P(FALSE, <<"u", "?">>)>>),
+    Cr(FALSE, "localuser", <<P(FALSE, LU)>>),
+    Cr(FALSE, "localuser", <<P(FALSE, <<"x">>)>>),
+    Cr(FALSE, "tagged", <<P(FALSE, <<"t", "1">>)>>),
+    Cr(FALSE, "canonical", <<>>)
+>>
+GenS == <<                                         \* server criteria
+    Cr(FALSE, "user", <<P(FALSE, <<"a">>)>>),
+    Cr(FALSE, "user", <<P(FALSE, <<"b">>)>>),
+    Cr(FALSE, "address", <<P(FALSE, <<"1", "0", ".", "*">>)>>),
+    Cr(FALSE, "address", <<P(FALSE, <<"1", "1", ".", "*">>)>>),
+    Cr(FALSE, "host", <<P(FALSE, ha)>>),
+    Cr(FALSE, "host", <<P(FALSE, hb)>>)
+>>
+GenT == <<GenC[1], GenC[4], GenC[2]>>              \* three-criteria lines
+GenH == <<ha, hb, <<"h", "?">>, <<"*">>>>          \* Host patterns
+WithNeg(cr, n) == [cr EXCEPT !.neg = (n = 1)]
+Gen2(M) ==
+    LET K == Len(M) IN
+    [i \in 1..(4 * K * K) |->
+        LET x == i - 1 IN
+        MatchD(<<WithNeg(M[x \div (4 * K) + 1], (x \div (2 * K)) % 2),
+                 WithNeg(M[((x \div 2) % K) + 1], x % 2)>>)]
+Gen3(M) ==
+    LET K == Len(M) IN
+    [i \in 1..(8 * K * K * K) |->
+        LET x == i - 1
+            nb == x % 8
+            ci == x \div 8
+        IN  MatchD(<<WithNeg(M[ci \div (K * K) + 1], nb \div 4),
+                     WithNeg(M[((ci \div K) % K) + 1], (nb \div 2) % 2),
+                     WithNeg(M[(ci % K) + 1], nb % 2)>>)]
+GenHost ==
+    LET K == Len(GenH) IN
+    [i \in 1..(4 * K * K) |->
+        LET x == i - 1 IN
+        HostD(<<P((x \div (2 * K)) % 2 = 1, GenH[x \div (4 * K) + 1]),
+                P(x % 2 = 1, GenH[((x \div 2) % K) + 1])>>)]
+GenBlocks == <<Gen2(GenC), Gen3(GenT), GenHost, Gen2(GenS)>>
+DirMenu == StaticMenu \o GenBlocks[1] \o GenBlocks[2] \o GenBlocks[3] \o GenBlocks[4]
 NDir == Len(DirMenu)
+RECURSIVE BlockStart(_)
+BlockStart(b) == IF b = 1 THEN NStatic ELSE BlockStart(b - 1) + Len(GenBlocks[b - 1])
+GenIdx(b) == (BlockStart(b) + 1)..(BlockStart(b) + Len(GenBlocks[b]))
 
 (* server side: user names presented by the (unauthenticated) client *)
 SrvUsers == <<
@@ -240,12 +295,14 @@ CritVal(cr, st, cx) ==
       [] cr.c = "address"      -> NameListMatch(cr.pl, <<"1", "0", ".", "0", ".", "0", ".", "4">>)
 
 (* criteria are taken left to right, as the code does *)
-RECURSIVE CondI(_, _, _, _)
-CondI(crs, matching, st, cx) ==
+RECURSIVE CondJ(_, _, _, _, _)
+CondJ(crs, matching, seenNeg, st, cx) ==
     IF crs = <<>> THEN matching
     ELSE LET r == CritVal(Head(crs), st, cx)
-             neg == IF NegNoop THEN FALSE ELSE Head(crs).neg
-         IN  CondI(Tail(crs), matching /\ (r # neg), st, cx)
+             neg == IF NegNoop THEN FALSE
+                    ELSE Head(crs).neg \/ (NegSticky /\ seenNeg)
+         IN  CondJ(Tail(crs), matching /\ (r # neg), seenNeg \/ Head(crs).neg, st, cx)
+CondI(crs, matching, st, cx) == CondJ(crs, matching, FALSE, st, cx)
 HasFinal(crs) == \E i \in 1..Len(crs) : crs[i].c = "final"
 
 Assign(st, d, cx) ==
@@ -356,9 +413,16 @@ SrvEval(prog, user, flags) ==
 VARIABLE kase
 vars == <<kase>>
 
-Progs == [main : UNION {[1..n -> MainSel] : n \in 1..MaxMain},
+(* generated-line programs: [directive before,] generated line, one option line *)
+GenOpt == IF Mode = "cli" THEN 25 ELSE 46
+GenLines == UNION {GenIdx(b) : b \in GenSel}
+GenMains == (IF 0 \in PreSel THEN {<<g, GenOpt>> : g \in GenLines} ELSE {}) \cup
+            {<<pre, g, GenOpt>> : pre \in PreSel \ {0}, g \in GenLines}
+GenProgs == [main : GenMains, a : {<<>>}, b : {<<>>}]
+FreeProgs == [main : UNION {[1..n -> MainSel] : n \in 1..MaxMain},
           a    : UNION {[1..n -> IncSel]  : n \in 0..MaxInc},
           b    : UNION {[1..n -> IncSel]  : n \in 0..(IF MaxInc > 0 THEN 1 ELSE 0)}]
+Progs == IF GenSel = {} THEN FreeProgs ELSE GenProgs
 UsesInc(p, f) == \E i \in 1..Len(p.main) : DirMenu[p.main[i]].k = "inc" /\ DirMenu[p.main[i]].f = f
 (* include files only vary when they are read *)
 WellFormed(p) ==
